@@ -332,7 +332,7 @@ class _:
             yield dict(kind="dense", shape=list(shp), seed=rng.randrange(10**6))
             for nel in (1, 2, 3, 5):
                 yield dict(kind="diag", shape=list(shp), nel=nel, seed=rng.randrange(10**6))
-            for frac in (0.0, 0.1, 0.34, 0.5, 0.8):
+            for frac in (0.0, 0.1, 0.34, 0.5, 0.8, 1.0):
                 yield dict(kind="sprand", shape=list(shp), frac=frac, seed=rng.randrange(10**6))
             for rep in range(3):
                 yield dict(kind="agg", shape=list(shp), seed=rng.randrange(10**6), reducer=rng.choice(["sum", "max", "min", "len"]))
@@ -421,6 +421,8 @@ class _:
                     raise Fail("sptenrand:shape", f"{case}")
                 if S.nnz > want:
                     raise Fail("sptenrand:too-many", f"{case}: {S.nnz} > {want}")
+                if want == tot and tot >= 8 and S.nnz < tot // 4:
+                    raise Fail("sptenrand:full-request-nearly-empty", f"{case}: {S.nnz} of {tot} cells for a full request")
                 if S.nnz < want and want <= 0.5 * tot:
                     raise Fail("sptenrand:too-few", f"{case}: {S.nnz} < {want} of {tot} cells")
                 if S.nnz and ((S.vals < 0).any() or (S.vals >= 1).any()):
